@@ -287,6 +287,42 @@ def _iter_defs_pos(body):
                     yield x
 
 
+def infer_pure(tree):
+    """(pure module-level function names, {class name: pure method names}) of a module: a function is pure here when it
+    stores to no attribute / item, declares no global, does not yield and calls only pure things (fixpoint)."""
+    funcs = dict((st.name, st) for st in tree.body if isinstance(st, ast.FunctionDef))
+    classes = dict((st.name, dict((m.name, m) for m in st.body if isinstance(m, ast.FunctionDef))) for st in ast.walk(tree) if isinstance(st, ast.ClassDef))
+
+    def locally_clean(fn):
+        for x in ast.walk(fn):
+            if isinstance(x, (ast.Attribute, ast.Subscript)) and isinstance(x.ctx, (ast.Store, ast.Del)):
+                return False
+            if isinstance(x, (ast.Global, ast.Nonlocal, ast.Yield, ast.YieldFrom, ast.Await, ast.With, ast.Import, ast.ImportFrom)):
+                return False
+            if isinstance(x, (ast.For, ast.comprehension)) and isinstance(x.iter, ast.Name) and x.iter.id == "self":
+                return False        # iterating the object runs its generator (cache, lock)
+        return True
+    pure_f = set(n for n, f in funcs.items() if locally_clean(f))
+    pure_m = dict((c, set(n for n, f in ms.items() if locally_clean(f))) for c, ms in classes.items())
+    changed = True
+    while changed:
+        changed = False
+        saved = (set(nf.EXTRA_PURE_FUNCS), set(nf.EXTRA_PURE_SELF_METHODS))
+        for n in sorted(pure_f):
+            nf.EXTRA_PURE_FUNCS, nf.EXTRA_PURE_SELF_METHODS = set(pure_f), set()
+            if any(isinstance(x, ast.Call) and not nf.is_pure_call(x) for x in ast.walk(funcs[n])):
+                pure_f.discard(n)
+                changed = True
+        for c, ms in pure_m.items():
+            for n in sorted(ms):
+                nf.EXTRA_PURE_FUNCS, nf.EXTRA_PURE_SELF_METHODS = set(pure_f), set(ms)
+                if any(isinstance(x, ast.Call) and not nf.is_pure_call(x) for x in ast.walk(classes[c][n])):
+                    ms.discard(n)
+                    changed = True
+        nf.EXTRA_PURE_FUNCS, nf.EXTRA_PURE_SELF_METHODS = saved
+    return pure_f, pure_m
+
+
 def functions_equivalent(fa, fb):
     """(equivalent, reason) for two FunctionDef nodes (current, baseline)."""
     if type(fa) is not type(fb):
@@ -306,6 +342,13 @@ def functions_equivalent(fa, fb):
         # the names as written first (most edits keep them), then with locals renamed by first binding
         if blocks_equivalent(_strip_doc(fa.body), _strip_doc(fb.body), 0, [], []):
             return True, "guarded normal forms agree"
+        # locals the two versions do not share, renamed by first binding (a renamed local, a new or dropped temporary)
+        from .canon import local_names
+        common = local_names(fa) & local_names(fb)
+        A = summ.alpha_rename(fa, keep=common, prefix="u")
+        B = summ.alpha_rename(fb, keep=common, prefix="u")
+        if blocks_equivalent(_strip_doc(A.body), _strip_doc(B.body), 0, [], []):
+            return True, "guarded normal forms agree (unshared locals renamed)"
         A = summ.alpha_rename(fa)
         B = summ.alpha_rename(fb)
         ok = blocks_equivalent(_strip_doc(A.body), _strip_doc(B.body), 0, [], [])
